@@ -519,7 +519,7 @@ VARIANTS = [
      "        if len(value_as_bytes) > bearer.att_mtu - 3:\n            value_as_bytes = value_as_bytes[: bearer.att_mtu - 3]\n\n        # Notify",
      "        if len(value_as_bytes) > bearer.att_mtu - 1:\n            value_as_bytes = value_as_bytes[: bearer.att_mtu - 1]\n\n        # Notify", 'fire', 'C10.truncate'),
     ('indication slot cleared only on success', 'bumble/gatt_server.py',
-     "                raise TimeoutError(f'GATT timeout for {indication.name}') from error\n            finally:\n                self.pending_confirmations[bearer] = None\n",
+     "                raise TimeoutError(f'GATT timeout for {indication.name}') from error\n            finally:\n                if bearer in self.pending_confirmations:\n                    self.pending_confirmations[bearer] = None\n",
      "                raise TimeoutError(f'GATT timeout for {indication.name}') from error\n            self.pending_confirmations[bearer] = None\n", 'fire', 'C10.indication-slot'),
     ('request list loses execute write', 'bumble/att.py', "    Opcode.ATT_PREPARE_WRITE_REQUEST,\n    Opcode.ATT_EXECUTE_WRITE_REQUEST,\n]", "    Opcode.ATT_PREPARE_WRITE_REQUEST,\n]", 'fire', 'C10.classify'),
     ('benign: log text', 'bumble/gatt_server.py', "                logger.debug(f'normal exception returned by handler: {error}')\n", "                logger.debug(f'ATT error returned by handler: {error}')\n", 'silent', ''),
